@@ -19,9 +19,9 @@ import (
 
 func init() {
 	Registry["C17"] = Spec{
-		Fn:    c17,
-		Level: "exploration",
-		Rule: "for every message kind (ClientHello, ServerHello, Query+ClientInfo+settings+parameters, ClientInfo, ClientData, Block header+info, Progress, Profile, Exception chain, TableColumns, Setting) x generated field values (empty/long/non-UTF8 strings, 0/max integers, every enum member, trace contexts) x revisions {every feature threshold and both neighbours, 50000, 54500} (thorough: every revision 50000..54500): library encode == reference encode byte for byte, library decode of it == message with exact consumption, reference decode of it == message. Non-trivial = message with >=1 revision-gated field; distinct = (message kind, revision, field fingerprint)",
+		Fn:          c17,
+		Level:       "exploration",
+		Rule:        "for every message kind (ClientHello, ServerHello, Query+ClientInfo+settings+parameters, ClientInfo, ClientData, Block header+info, Progress, Profile, Exception chain, TableColumns, Setting) x generated field values (empty/long/non-UTF8 strings, 0/max integers, every enum member, trace contexts) x revisions {every feature threshold and both neighbours, 50000, 54500} (thorough: every revision 50000..54500): library encode == reference encode byte for byte, library decode of it == message with exact consumption, reference decode of it == message. Non-trivial = message with >=1 revision-gated field; distinct = (message kind, revision, field fingerprint)",
 		Assumptions: []string{"reference message codec harness/internal/ref/messages.go with its own copy of the feature thresholds (Core/ProtocolDefines.h)"},
 		MinDistinct: 300,
 		Exhaustive:  func(tier string) bool { return false },
@@ -37,6 +37,15 @@ var c17Blank bool
 func c17Str(rng *rand.Rand) string {
 	if c17Blank {
 		return ""
+	}
+	if rng.Intn(60) == 0 {
+		// long strings (stack traces, query bodies): beyond typical scratch and bufio sizes
+		n := []int{16384, 16385, 20000, 70000, 131072, 200000}[rng.Intn(6)]
+		b := make([]byte, n)
+		for i := range b {
+			b[i] = byte('a' + (i*7+n)%26)
+		}
+		return string(b)
 	}
 	if rng.Intn(8) == 0 {
 		b := make([]byte, rng.Intn(40))
